@@ -321,6 +321,10 @@ func getAndProcessDeals(ctx context.Context, logger log.Logger, dkgc chan *DistK
 				return
 			}
 		}
+		if dkg == nil {
+			// the context ended before a generator arrived: nothing to process the deals with
+			return
+		}
 		defer logger.TimeTrack(time.Now(), "getAndProcessDeals", map[string]interface{}{"GroupID": sessionID, "Topic": "Grouping"})
 		select {
 		case <-ctx.Done():
@@ -381,6 +385,10 @@ func getAndProcessResponses(ctx context.Context, logger log.Logger, dkgc chan *D
 			if !ok {
 				return
 			}
+		}
+		if dkg == nil {
+			// the context ended before a generator arrived: nothing to process the responses with
+			return
 		}
 		defer logger.TimeTrack(time.Now(), "getAndProcessResponses", map[string]interface{}{"GroupID": sessionID, "Topic": "Grouping"})
 		select {
